@@ -161,7 +161,8 @@ theorem experiment_file {R : Type} (single : Nat → Nat → R) (runs nprob : Na
       simp only [Prod.mk.injEq] at hx
       simp [jobSeed, hx.1, hx.2]
 
-theorem childSeeds_eq (k : Nat) (r : Rng) : childSeeds k r = (List.range k).map (fun i => r.stream (r.pos + i)) := by
+theorem childSeeds_eq (d : Nat → Nat) (k : Nat) (r : Rng) :
+    childSeeds d k r = (List.range k).map (fun i => d (r.stream (r.pos + i))) := by
   induction k generalizing r with
   | zero => rfl
   | succ k ih =>
@@ -171,9 +172,9 @@ theorem childSeeds_eq (k : Nat) (r : Rng) : childSeeds k r = (List.range k).map 
     intro i _
     simp [Nat.add_assoc, Nat.add_comm 1 i]
 
-theorem children_eq (ctor : Nat → Nat → Nat) (k : Nat) (r : Rng) :
-    (children ctor k r).1 = (childSeeds k r).map (mkRng ctor) ∧
-    (children ctor k r).2 = { r with pos := r.pos + k } := by
+theorem children_eq (ctor : Nat → Nat → Nat) (d : Nat → Nat) (k : Nat) (r : Rng) :
+    (children ctor d k r).1 = (childSeeds d k r).map (mkRng ctor) ∧
+    (children ctor d k r).2 = { r with pos := r.pos + k } := by
   induction k generalizing r with
   | zero => exact ⟨rfl, rfl⟩
   | succ k ih =>
@@ -182,5 +183,57 @@ theorem children_eq (ctor : Nat → Nat → Nat) (k : Nat) (r : Rng) :
     refine ⟨by rw [h1], ?_⟩
     rw [h2]
     simp [Rng.next, Nat.add_assoc, Nat.add_comm 1 k]
+
+/-! ### `Random` over a backend -/
+
+theorem Random.run_eq {B : Backend} (script : List Draw) (r : Random B) :
+    r.run script = B.run script r.inner := by
+  induction script generalizing r with
+  | nil => rfl
+  | cons d ds ih => simp only [Random.run, Backend.run, Random.draw, ih]
+
+theorem Random.nthChild_eq {B : Backend} (d : Nat → Nat) (i : Nat) (r : Random B) :
+    Random.nthChild d i r = Random.withRng B (d (B.nthWord i r.inner)) := by
+  induction i generalizing r with
+  | zero => rfl
+  | succ i ih => simp only [Random.nthChild, Backend.nthWord, ih, Random.child]
+
+theorem Random.descend_withRng {B : Backend} (d : Nat → Nat) (path : List Nat) (seed : Nat) :
+    (Random.withRng B seed).descend d path = Random.withRng B (B.descendSeed d path seed) := by
+  induction path generalizing seed with
+  | nil => rfl
+  | cons i path ih =>
+    simp only [Random.descend, Backend.descendSeed, Random.nthChild_eq, ih]
+    rfl
+
+/-- The seeds reported on the way down end with the descendant's seed. -/
+theorem Random.descendSeeds_getLastD {B : Backend} (d : Nat → Nat) (path : List Nat) (seed : Nat) :
+    ((Random.withRng B seed).descendSeeds d path).getLastD seed = B.descendSeed d path seed := by
+  induction path generalizing seed with
+  | nil => rfl
+  | cons i path ih =>
+    simp only [Random.descendSeeds, Backend.descendSeed, Random.nthChild_eq]
+    have h := ih (d (B.nthWord i (Random.withRng B seed).inner))
+    rw [List.getLastD_cons]
+    exact h
+
+/-- Deriving children advances the parent by exactly the words handed out and nothing else. -/
+theorem Random.child_parent {B : Backend} (d : Nat → Nat) (r : Random B) :
+    (r.child d).2.cfgSeed = r.cfgSeed ∧ (r.child d).2.inner = (B.nextU64 r.inner).2 := ⟨rfl, rfl⟩
+
+theorem ctr_first_word (a : Nat) (ha : a < 2 ^ 64) : ctr.nthWord 0 (ctr.seedFrom a) = a := by
+  simp only [Backend.nthWord, ctr]
+  exact Nat.mod_eq_of_lt ha
+
+theorem jobGenerator_eq {G : Type} (newG : Nat → G) (setup : Option G → Except Unit (Option G)) (dflt : G) (run : Nat) :
+    jobGenerator newG setup dflt run =
+      match setup (some (newG run)) with
+      | .error e => .error e
+      | .ok none => .ok dflt
+      | .ok (some g) => .ok g := by
+  unfold jobGenerator optimizeWithG jobInit
+  cases setup (some (newG run)) with
+  | error e => rfl
+  | ok o => cases o <;> rfl
 
 end MahfModel.Determinism
